@@ -9,5 +9,8 @@ os.makedirs(ROOT + '/corpus/' + pid, exist_ok=True)
 for f in sorted(glob.glob(ROOT + '/replays/%s/*.json' % pid)):
     d = json.load(open(f))
     name = prefix + re.sub(r'[^A-Za-z0-9=]+', '_', d['finding']['signature'])[:90]
-    os.rename(f, ROOT + '/corpus/%s/%s.json' % (pid, name))
-    print('corpus/%s/%s.json' % (pid, name))
+    dest = ROOT + '/corpus/%s/%s.json' % (pid, name)
+    if os.path.exists(dest):
+        dest = ROOT + '/corpus/%s/%s_%s.json' % (pid, name, os.path.basename(f)[:6])
+    os.rename(f, dest)
+    print(os.path.relpath(dest, ROOT))
